@@ -1,7 +1,7 @@
 (* C16 - Denied-key tracking is bounded, never overstates, and exports safely. *)
 From Coq Require Import ZArith NArith List Bool.
 Import ListNotations.
-Require Import TC.Generated.Consts TC.Base.Map TC.Resp.Utf8 TC.Server.Denied TC.Server.Escape.
+Require Import TC.Generated.Consts TC.Base.Map TC.Resp.Utf8 TC.Server.Denied TC.Server.Escape TC.Corr.DeniedCorr TC.Corr.DeniedSound.
 Open Scope Z_scope.
 
 (* [dstep]/[drun]: every behaviour of TopDeniedKeys::update (+ cleanup) for every survivor choice an
@@ -63,3 +63,12 @@ Theorem C16_line_single_newline : forall (prefix mid suffix key : list N),
   exists body, sample_line prefix mid suffix key = body ++ [NL] /\ ~ In NL body.
 Proof. exact line_single_newline. Qed.
 Print Assumptions C16_line_single_newline.
+
+(* the acceptance function the correspondence evaluates on the real table snapshots (hook H3) is SOUND for the
+   relational model: every step it accepts is a step of the model up to the listing order of the table, every
+   report it accepts is a report of the model *)
+Theorem C16_acceptance_sound :
+  forall (mx : nat) (obs : list dobs), denied_case_ok (mx, obs) = true ->
+  Forall (fun o => exists t1, dstep mx (d_prev o) (d_key o) t1 /\ same_map t1 (d_next o) /\ valid_top mx (d_next o) (d_top o)) obs.
+Proof. exact denied_case_ok_sound. Qed.
+Print Assumptions C16_acceptance_sound.
